@@ -2,7 +2,7 @@
 import filecmp, json, os, re, shutil, subprocess
 import common, extract, libgen, fitlib
 
-LEAN_MODULE = "ESRVerif.Props.C16"
+LEAN_MODULE = ["ESRVerif.Props.C16", "ESRVerif.Props.C16b"]
 LEVEL = "proof"
 LEVEL_TEXT = ("Lean theorem (non-interference, unbounded in statements and files): a stage whose every read/append is of a file the same run has already "
               "written, truncated or removed leaves the same bytes in every file it touches whatever persistent state earlier runs left behind. The effect "
@@ -11,14 +11,30 @@ LEVEL_TEXT = ("Lean theorem (non-interference, unbounded in statements and files
               "on it in Lean; likewise that every shuffle is seeded in its own stage and every stage (re)writes the symbol-table keys it reads. The summary "
               "is validated against a dynamic audit trace of a real run, and real runs after PRNG-drawn histories (other bases, other complexities, repeats, "
               "left-over and corrupted outputs; same process and fresh process) are compared byte for byte with a fresh run, for generation and for the "
-              "four fitting stages.")
-TECHNIQUE = "Lean 4 non-interference proof over an effect summary regenerated from source + audit-trace validation + differential history runs"
+              "four fitting stages. In-memory state: a second table regenerated from the source lists every cell that survives between two calls in one "
+              "process (every module-level name of every esr module, mutable default arguments, class and function attributes, lru_cache memos, numpy's and "
+              "random's global generators, signal handlers and timers, warning filters, os.environ, cwd, recursion limit, numpy error/print state, sympy "
+              "printer settings and cache) with, per entry point, whether it is not touched / only read / written with the import-time literal / completely "
+              "re-initialised before use / used before re-initialised and written. Lean theorem (unbounded in cells and in the length of the history): if no "
+              "cell outside a declared list is both looked at by some entry point and changed by some entry point, every call of every history returns what "
+              "it returns in a fresh process; the hypothesis is decided on the regenerated table, the declared list (numpy generator = the seed the property "
+              "fixes; sympy cache and recursion limit = assumed result-neutral) is proved to be exactly the complement. The table is validated each run "
+              "against fingerprints of all those cells taken before and after every call of the same-process histories.")
+TECHNIQUE = ("Lean 4 non-interference proofs over a file-effect summary and an in-memory cell table, both regenerated from source + audit-trace and "
+             "memory-fingerprint validation + differential history runs")
 RULE = ("one case = one (history, observed call) pair whose output files are byte-compared with the fresh-process/empty-directory run; non-trivial = "
         "the history has at least one earlier call or left-over file; distinct by the history")
 EXPLANATION = LEVEL_TEXT
 TRUSTED = ["harness/extractors/effects.py (static effect extraction; validated against the audit trace each run)", "Python audit events 'open', 'os.system', 'os.remove' are complete for file access of the stage",
-           "in-memory module state other than sympy_locs and the numpy RNG (e.g. sympy's caches) is not modelled; it is covered only by the differential runs"]
-ASSUMPTIONS = ["earlier runs completed (no stale per-rank temp files)", "the fitting stages are observed with the numpy RNG re-seeded at the start of the observed stage"]
+           "harness/extractors/memstate.py (static cell/access extraction: name-based call graph, methods on unknown receivers resolved to every esr method of that name, "
+           "statement-level dominance for 're-initialised before use'; fails closed on unclassified initialisers, decorators, methods of mutable cells, escaping aliases, "
+           "process-wide setters; validated against memory fingerprints each run)",
+           "state kept inside third-party libraries is not enumerated cell by cell: sympy's cache is one declared cell assumed result-neutral, covered only by the differential runs",
+           "objects passed in as arguments (the likelihood object) are inputs of a call, not cells"]
+ASSUMPTIONS = ["earlier runs completed (no stale per-rank temp files)", "the fitting stages are observed with the numpy RNG re-seeded at the start of the observed stage",
+               "the interpreter recursion limit (only ever raised, by fitting calls at complexity >= 8) and sympy's internal cache do not change results",
+               "the single-function API (esr.fitting.fit_single) is outside the statement: its string front end reads the a<i> entries of the shared sympy symbol "
+               "table without binding them first (theorem carried_with_single_function_api_partial; observed each run, reported in coverage.fit_single_api_probe)"]
 # tables whose committed version may stand in as a hand-written model when the translator cannot read the source;
 # value = the correspondence that then ties it to the code (common.prove / common.decide)
 FALLBACK = {'Effects': 'audit trace of every file operation of real generation runs vs the committed effect summary'}
@@ -27,11 +43,32 @@ MODELLED = []
 BASES = {"core_maths": None, "ext_maths": None, "osc_maths": None, "base_e_maths": None}
 
 
-def _gen(ctx, copy, calls, trace=None, timeout=900):
+_MEM = dict(n=0, records=[], probes=[])
+
+
+def _mem_path(ctx):
+    _MEM["n"] += 1
+    return os.path.join(ctx.tmp, "memstate_%d.json" % _MEM["n"])
+
+
+def _mem_collect(path, what):
+    try:
+        for r in json.load(open(path)):
+            r["history"] = what
+            _MEM["records"].append(r)
+    except Exception:
+        pass
+
+
+def _gen(ctx, copy, calls, trace=None, timeout=900, mem=False, pre_recursionlimit=None):
     env = ctx.env()
     env["PYTHONPATH"] = os.pathsep.join([common.STANDIN, copy, common.HARNESS])
-    p = subprocess.run([common.PY, os.path.join(common.HARNESS, "workers", "gen_history.py"), json.dumps(dict(calls=calls, trace=trace))],
+    mp = _mem_path(ctx) if mem else None
+    p = subprocess.run([common.PY, os.path.join(common.HARNESS, "workers", "gen_history.py"),
+                        json.dumps(dict(calls=calls, trace=trace, memstate=mp, pre_recursionlimit=pre_recursionlimit))],
                        env=env, cwd=copy, capture_output=True, text=True, timeout=timeout)
+    if mp:
+        _mem_collect(mp, "generation %s" % json.dumps(calls))
     return p.returncode, (p.stdout[-300:] + p.stderr[-800:])
 
 
@@ -92,11 +129,19 @@ def _validate_trace(ctx, trace, libdir):
     return n
 
 
+def _RNG2(ctx):
+    """a second stream (the histories drawn from ctx.rng stay what they were before the in-memory tie was added)"""
+    if not hasattr(ctx, "_rng2"):
+        import random
+        ctx._rng2 = random.Random(ctx.seed * 7919 + 16)
+    return ctx._rng2
+
+
 def _history_generation(ctx, target, nhist):
     runname, compl = target
     ref = common.fresh_copy(ctx, "c16_ref_%s_%d" % (runname, compl))
     trace = os.path.join(ctx.tmp, "trace_%s_%d.json" % (runname, compl))
-    rc, tail = _gen(ctx, ref, [[runname, compl, None]], trace=trace)
+    rc, tail = _gen(ctx, ref, [[runname, compl, None]], trace=trace, mem=True)
     if rc != 0:
         ctx.disagree("reference-run", "fresh generation of %s n=%d failed: %s" % (runname, compl, tail)); return
     refdir = _libdir(ref, runname, compl)
@@ -129,10 +174,14 @@ def _history_generation(ctx, target, nhist):
                         fh.write("left over by an earlier run\n")
             hist = [["<left-over files of %s in the target directory%s>" % (other, ", every file with an extra line" if kind == "corrupted" else ""), compl, None]]
             calls = [[runname, compl, None]]
-        rc, tail = _gen(ctx, copy, calls)
+        # what an earlier fitting call at complexity >= 8 leaves behind (sys.setrecursionlimit, test_all.py l.70): same-process histories only
+        pre = _RNG2(ctx).choice([None, 2000 + 500 * 2]) if kind in ("same-process", "repeat") else None
+        rc, tail = _gen(ctx, copy, calls, mem=kind in ("same-process", "repeat"), pre_recursionlimit=pre)
         key = json.dumps(hist)
+        if pre:
+            ctx.extra["histories_with_raised_recursion_limit"] = ctx.extra.get("histories_with_raised_recursion_limit", 0) + 1
         ctx.case(("gen", runname, compl, key), nontrivial=True)
-        rp = dict(kind="generation", target=[runname, compl], history=hist, hkind=kind)
+        rp = dict(kind="generation", target=[runname, compl], history=hist, hkind=kind, recursion_limit_raised_before=pre)
         if rc != 0:
             ctx.fail("generation-after-history-fails:%s" % kind, "generation of %s n=%d fails after history %s: %s" % (runname, compl, hist, tail[-300:]), rp)
             continue
@@ -144,11 +193,19 @@ def _history_generation(ctx, target, nhist):
         shutil.rmtree(copy, ignore_errors=True)
 
 
-def _fit_calls(ctx, copy, dd, calls, timeout=1200):
+def _fit_calls(ctx, copy, dd, calls, timeout=1200, pre_recursionlimit=None, api_fit=False):
     env = ctx.env()
     env["PYTHONPATH"] = os.pathsep.join([common.STANDIN, copy, common.HARNESS])
-    p = subprocess.run([common.PY, os.path.join(common.HARNESS, "workers", "fit_history.py"), json.dumps(dict(data_dir=dd, calls=calls))],
+    mp = _mem_path(ctx)
+    pp = mp.replace("memstate_", "apiprobe_")
+    p = subprocess.run([common.PY, os.path.join(common.HARNESS, "workers", "fit_history.py"),
+                        json.dumps(dict(data_dir=dd, calls=calls, memstate=mp, api_probe=pp, api_fit=api_fit, pre_recursionlimit=pre_recursionlimit))],
                        env=env, cwd=copy, capture_output=True, text=True, timeout=timeout)
+    _mem_collect(mp, "fitting %s" % json.dumps([(c["fn_set"], c["comp"], c["data_file"]) for c in calls]))
+    try:
+        _MEM["probes"].append(json.load(open(pp)))
+    except Exception:
+        pass
     return p.returncode, (p.stdout[-200:] + p.stderr[-700:])
 
 
@@ -182,7 +239,10 @@ def _history_fitting(ctx, nhist):
                 if not any(c["comp"] == 3 and c["fn_set"] != fn_set for c in hist):
                     hist[0].update(comp=3, fn_set=("ext_maths" if fn_set == "core_maths" else "core_maths"))
                 calls = hist + [obs]
-            rc, tail = _fit_calls(ctx, lib["copy"], dd, calls)
+            pre = (2000 + 500 * 2) if (tag == "hist" and _RNG2(ctx).random() < 0.5) else None
+            rc, tail = _fit_calls(ctx, lib["copy"], dd, calls, pre_recursionlimit=pre, api_fit=(tag == "hist" and h == 0))
+            if pre:
+                ctx.extra["histories_with_raised_recursion_limit"] = ctx.extra.get("histories_with_raised_recursion_limit", 0) + 1
             if rc != 0:
                 outs[tag] = None
                 ctx.fail("fitting-after-history-fails" if tag == "hist" else "fitting-reference-fails", "fitting stages (%s n=3%s) fail%s: %s" % (
@@ -201,15 +261,95 @@ def _history_fitting(ctx, nhist):
                 ctx.sample(dict(fitting_observed=[fn_set, 3, "ignore_previous_eqns" if ipe else "default"], history=[(c["fn_set"], c["comp"], c["data_file"]) for c in hist], identical_files=len(names)), cap=8)
 
 
+def _delta(r, c):
+    v = r["changed"].get(c)
+    return "%s -> %s" % (v[0][13:60], v[1][13:60]) if v else "appeared during the call"
+
+
+def _check_memstate(ctx):
+    """dynamic tie of Generated/MemState.lean: every cell whose fingerprint changed across a call must be a cell the table says
+    that entry point can change; in particular every cell of kind (a) is unchanged across every observed call"""
+    from extractors import memstate as ms
+    try:
+        tb = ms.analyse(ctx.stage)
+    except Exception as e:
+        ctx.disagree("corr:memstate", "the in-memory cell table cannot be regenerated from the current source: %s" % e)
+        return
+    col = {ms.ENTRY_CALLABLE[l]: i for i, (l, _) in enumerate(tb["entries"])}
+    cells, alias = tb["cells"], tb["aliases"]
+    kinds = ms.kinds(tb)
+    pipe = [i for i, (_, p) in enumerate(tb["entries"]) if p]
+
+    def canon(c):
+        c = alias.get(c, c)
+        if c not in cells and c.endswith("[a<i>]"):
+            c = alias.get(c[:-6], c[:-6])
+        return c
+
+    changed, unknown, seen_entries, ncalls, nsnap = {}, {}, {}, 0, 0
+    for r in _MEM["records"]:
+        e = r["entry"]
+        if e not in col:
+            ctx.disagree("corr:memstate", "observed call %s is not an entry point of the table" % e); continue
+        ncalls += 1
+        nsnap = max(nsnap, r["ncells"])
+        seen_entries[e] = seen_entries.get(e, 0) + 1
+        if r.get("vanished"):
+            ctx.disagree("corr:memstate", "cells %s vanished across a call of %s (history %s)" % (r["vanished"][:4], e, r["history"][:200]))
+        for c0 in list(r["changed"]) + list(r.get("appeared", [])):
+            c = canon(c0)
+            if c not in cells:
+                unknown.setdefault(c0, e)
+                ctx.disagree("corr:memstate", "cell %s changed across a call of %s (%s) but is not in the table regenerated from the source (history %s)" % (
+                    c0, e, _delta(r, c0), r["history"][:200]))
+                continue
+            changed.setdefault(c, set()).add(e)
+            acc = cells[c]["acc"][col[e]]
+            if acc not in ("reset", "rmw"):
+                ctx.disagree("corr:memstate", "cell %s changed across a call of %s (%s) but the table says that entry point's access is `%s` (kind %s) (history %s)" % (
+                    c, e, _delta(r, c0), acc, kinds[c][col[e]], r["history"][:200]))
+    if not _MEM["records"]:
+        ctx.disagree("corr:memstate", "no memory fingerprint was recorded (workers failed?)")
+    cnt = {k: sum(1 for c in cells for i in pipe if kinds[c][i] == k) for k in "abc"}
+    written = sorted(c for c, v in cells.items() if any(a in ("reset", "rmw") for a in v["acc"]))
+    ctx.extra["memstate"] = dict(
+        cells_in_table=len(cells), entry_points=[l for l, _ in tb["entries"]],
+        cells_by_kind={k: len([c for c in cells.values() if c["kind"] == k]) for k in sorted(set(c["kind"] for c in cells.values()))},
+        mutable_cells=sorted(c for c, v in cells.items() if v["mutable"] and v["kind"] != "process"),
+        pipeline_cell_entry_pairs=dict(a_never_written=cnt["a"], b_reset_or_not_looked_at=cnt["b"], c_carried=cnt["c"]),
+        carried_pipeline=sorted(c for c in cells if any(kinds[c][i] == "c" for i in pipe)),
+        carried_with_api=sorted(c for c in cells if "c" in kinds[c]),
+        write_sites=len([s for s in tb["sites"] if "(first)" not in s[3]]),
+        calls_fingerprinted=ncalls, calls_by_entry=seen_entries, cells_per_snapshot=nsnap,
+        cells_seen_changing={c: sorted(v) for c, v in sorted(changed.items())},
+        written_in_table_never_seen_changing=[c for c in written if c not in changed],
+        changed_but_unknown=unknown)
+    # the single-function API in a fresh process versus after the pipeline calls (outside the statement: reported, not judged)
+    diffs = []
+    for pr in _MEM["probes"]:
+        if "fresh" in pr and "after" in pr:
+            for a, b in zip(pr["fresh"], pr["after"]):
+                if a != b and [a, b] not in diffs:
+                    diffs.append([a, b])
+    ctx.extra["fit_single_api_probe"] = dict(
+        what="fit_single.string_to_aifeyn / tree_to_aifeyn in the still fresh process and again after the pipeline calls of the same process",
+        processes=len(_MEM["probes"]), differing=diffs[:6],
+        note=("string_to_node reads sympy_locs['a<i>'] without binding it: the same formula string gives another tree once any earlier call has "
+              "registered a<i> as a real symbol" if diffs else "no difference seen"))
+
+
 def run(ctx):
     deep = not ctx.quick
+    _MEM.update(n=0, records=[], probes=[])
     # base_e_maths n=4: check_results un-merges several functions there, so the order of its seeded shuffle is observable
     targets = [("core_maths", 4), ("base_e_maths", 4)] if not deep else [("core_maths", 4), ("base_e_maths", 4), ("ext_maths", 3), ("keep_duplicates", 4), ("core_maths", 5)]
     for t in targets:
         _history_generation(ctx, t, 4 if not deep else 12)
     _history_fitting(ctx, 2 if not deep else 8)
-    ctx.extra["corr_obligations"] = 1
-    ctx.extra["corr_discharged"] = int(not [d for d in ctx.disagreements if d["name"].startswith("trace")])
+    _check_memstate(ctx)
+    ctx.extra["corr_obligations"] = 2
+    ctx.extra["corr_discharged"] = int(not [d for d in ctx.disagreements if d["name"].startswith("trace")]) + \
+        int(not [d for d in ctx.disagreements if d["name"].startswith("corr:memstate")])
 
 
 def replay(ctx, data):
@@ -222,7 +362,7 @@ def replay(ctx, data):
         calls = [c for c in rp["history"] if not str(c[0]).startswith("<")] + [[runname, compl, None]]
         if rp.get("hkind") in ("leftover", "corrupted"):
             print("left-over-file histories are replayed by the quick check itself (seeded)"); return True
-        rc, tail = _gen(c2, copy, calls)
+        rc, tail = _gen(c2, copy, calls, pre_recursionlimit=rp.get("recursion_limit_raised_before"))
         bad = _cmp_dirs(_libdir(ref, runname, compl), _libdir(copy, runname, compl)) if rc == 0 else ["<run failed>"]
         print("differing files:", bad)
         return not bad
